@@ -169,7 +169,7 @@ class Router(frappy.protocol.dispatcher.Dispatcher):
     def handle_deactivate(self, conn, specifier, data):
         if specifier:
             raise frappy.errors.NotImplementedError('module wise activation not implemented')
-        super().handle_deactivate(conn, specifier, data)
+        return super().handle_deactivate(conn, specifier, data)
 
     def handle_read(self, conn, specifier, data):
         module = specifier.split(':')[0]
